@@ -31,83 +31,86 @@ def run(ctx):
         ctx.lost("dominance", "expected one trade writer, found %d" % len(tw))
         return
     twf = tw[0][0]
-    # ---------------------------------------------------------------- flag dominance on call chains
-    n_chains = 0
+    # ---------------------------------------------------------------- flag dominance
+    # Judged on whole-operation views (every private helper spliced in; the trade writer stays a call): in every public
+    # operation of the book, each call of the trade writer is control-dependent on trading == true and sits inside a
+    # matching loop; each matching loop is entered only under trading == true.
+    n_tw = n_loops = 0
     for root in m.book_pub_fns():
-        chains = m.w.call_chains(root, lambda f: f.path == twf.path)
-        for ch in chains:
-            n_chains += 1
-            guarded = [(q, c) for (q, c) in ch if trading_true(m, c.guards)]
-            path = " -> ".join([root.name] + [c.name for (_q, c) in ch])
-            ctx.check(bool(guarded), "dominance", "chain|" + path, ch[-1][1].loc(),
-                      "chain %s: call `%s` is guarded by trading == true" % (path, guarded[0][1].name if guarded else "?"),
-                      "a trade can be written with trading disabled: no call on the chain %s is guarded by the trading flag" % path)
-    ctx.check(n_chains >= 6, "dominance", "census", "-", "%d call chains from public entries to the trade writer" % n_chains)
-    # every call of a matching loop is guarded (the loops are the only callers of the trade writer)
-    matchers = {f.path: s for (f, s, _c) in m.matchers()}
-    n = 0
-    for f in m.book_all_fns():
-        q = m.q(f)
-        for c in q.calls():
-            if c.target is not None and c.target.path in matchers:
-                n += 1
-                ctx.check(trading_true(m, c.guards), "dominance", "matcher-call|%s|%s" % (f.short(), c.name), c.loc(),
-                          "matching call %s is control-dependent on trading == true" % c.name, "matching call %s in %s is not guarded by the trading flag" % (c.name, f.short()))
-    ctx.check(n >= 6, "dominance", "matcher-calls", "-", "%d matching-loop call sites" % n)
-    callers = {f.path for f in m.book_all_fns() for c in m.q(f).calls(twf.name) if c.target is not None and c.target.path == twf.path}
-    ctx.check(callers <= set(matchers), "dominance", "writer-callers", "-", "the trade writer is called only from the matching loops",
-              "the trade writer is also called from %s" % sorted(callers - set(matchers)))
+        q = m.ov(root)
+        loops = m.ov_matching_loops(q)
+        bodies = [q.body.loop_body(h) for (h, _sd, _c) in loops]
+        for c in q.calls(twf.name):
+            if c.target is None or c.target.path != twf.path:
+                continue
+            n_tw += 1
+            ctx.check(trading_true(m, c.guards), "dominance", "writer|" + root.short(), c.loc(),
+                      "%s: the trade writer is called only under trading == true" % root.name,
+                      "a trade can be written with trading disabled: the call of %s reached from %s is not guarded by the trading flag" % (twf.name, root.name))
+            ctx.check(any(c.b in b_ for b_ in bodies), "dominance", "writer-in-loop|" + root.short(), c.loc(),
+                      "%s: the trade writer is called from inside a matching loop" % root.name, "the trade writer is called outside the matching loops (from %s)" % root.name)
+        for (h, sd, c) in loops:
+            n_loops += 1
+            ctx.check(trading_true(m, q.cfg.guards(h)), "dominance", "matcher|%s|%s" % (root.short(), sd), c.loc(),
+                      "%s: the %s-side matching loop is control-dependent on trading == true" % (root.name, sd),
+                      "the %s-side matching loop reached from %s is not guarded by the trading flag" % (sd, root.name))
+    ctx.check(n_tw >= 4, "dominance", "census", "-", "%d trade-writer call contexts in the whole-operation views" % n_tw)
+    ctx.check(n_loops >= 4, "dominance", "matcher-calls", "-", "%d matching-loop contexts in the whole-operation views" % n_loops)
 
     # ---------------------------------------------------------------- false outcome
-    summ_sites = {}
     place = m.book_fn("place_order")
-    pq = m.q(place)
-    market_callees = []
-    for c in pq.calls():
-        if c.target is None:
+    q = m.ov(place)
+
+    def kind_of(atoms):
+        for a in atoms:
+            if a[0] == "cmp" and a[1] in ("eq", "ne") and a[2][0] == "field" and a[2][2] == "price" and a[3][0] == "const" and a[3][3] in (0, 0xFFFFFFFF):
+                return "market" if a[1] == "eq" else "limit"
+            if a[0] == "bool" and a[1][0] == "phi" and all(x[0] == "bin" and x[1] == "Eq" and x[2][0] == "field" and x[2][2] == "price" and x[3][0] == "const" and x[3][3] in (0, 0xFFFFFFFF) for x in a[1][1]):
+                return "market" if a[2] else "limit"
+        return None
+    sides_covered = set()
+    n_off = 0
+    for blk in q.body.blocks:
+        t = blk.term
+        if blk.cleanup or not t or t.k != "switch":
             continue
-        is_mkt = any(a[0] == "cmp" and a[1] == "eq" and a[2][0] == "field" and a[2][2] == "price" and a[3][0] == "const" and a[3][3] in (0, 0xFFFFFFFF) for a in c.guards)
-        is_lim = any(a[0] == "cmp" and a[1] == "ne" and a[2][0] == "field" and a[2][2] == "price" and a[3][0] == "const" and a[3][3] in (0, 0xFFFFFFFF) for a in c.guards)
-        if is_mkt:
-            market_callees.append(c.target)
-    ctx.check(len(market_callees) == 2, "reject", "market-placers", ctx.loc(place), "place_order dispatches market orders (price == sentinel) to 2 functions",
-              "found %d market-placement callees" % len(market_callees))
-    for f in market_callees:
-        q = m.qi(f)       # inlined view: a private helper that writes status + end time is seen through
-        f = q.fn
-        s = m.w.effects.summary(f)
-        off = []
-        for blk in f.body.blocks:
-            t = blk.term
-            if blk.cleanup or not t or t.k != "switch":
+        for sx in set(q.body.succs(blk.i)):
+            if not trading_false(m, q.cfg.edge_atoms(blk.i, sx)):
                 continue
-            for sx in set(f.body.succs(blk.i)):
-                if trading_false(m, q.cfg.edge_atoms(blk.i, sx)):
-                    off.append((blk.i, sx))
-        ctx.check(len(off) == 1, "reject", "branch|" + f.short(), ctx.loc(f), "%s branches on the trading flag" % f.name)
-        if len(off) != 1:
-            continue
-        b, sx = off[0]
-        # blocks only reachable through the false edge
-        slice_blocks = {x for x in q.cfg.reach_from(sx) if (b, sx) in q.cfg.controlling_edges(x)}
-        ws = [w for w in q.writes() if w.b in slice_blocks]
-        calls = [c for c in q.calls() if c.b in slice_blocks]
-        fields = sorted(w.field for w in ws)
-        # (that the rejected order's end time is stamped - here or by the caller - is C04's exit-state rule)
-        okw = set(fields) <= {"end_time", "status"} and "status" in fields and all(w.owner.endswith("Order") for w in ws) and any(status_const(w.val) == "Rejected" for w in ws)
-        ctx.check(okw and not calls, "reject", "slice|" + f.short(), q.loc(f.body.blocks[sx].stmts[0].sp if f.body.blocks[sx].stmts else f.span),
-                  "trading off: the market order is only marked Rejected with its end time (no call, no other write)",
-                  "trading off: market placement writes %s and calls %s" % (fields, [c.name for c in calls]))
+            g = q.cfg.guards(blk.i) + list(q.cfg.edge_atoms(blk.i, sx))
+            kind = kind_of(g)
+            b = blk.i
+            # blocks only reachable through the false edge
+            slice_blocks = {x for x in q.cfg.reach_from(sx) if (b, sx) in q.cfg.controlling_edges(x)}
+            ws = [w for w in q.writes() if w.b in slice_blocks]
+            calls = [c for c in q.calls() if c.b in slice_blocks]
+            fields = sorted(w.field for w in ws)
+            where = q.loc(t.sp)
+            if kind == "market":
+                n_off += 1
+                sd = [a[2] for a in g if a[0] == "variant" and set(a[2]) <= {"Bid", "Ask"}]
+                sides_covered |= set(sd[0]) if sd else {"Bid", "Ask"}
+                # (that the rejected order's end time is stamped - here or later - is C04's exit-state rule)
+                okw = set(fields) <= {"end_time", "status"} and "status" in fields and all(w.owner.endswith("Order") for w in ws) and any(status_const(w.val) == "Rejected" for w in ws)
+                ctx.check(okw and not calls, "reject", "slice|market|" + "".join(sorted(set(sd[0]) if sd else {"Bid", "Ask"})), where,
+                          "trading off: the market order is only marked Rejected with its end time (no call, no other write)",
+                          "trading off: market placement writes %s and calls %s" % (fields, [c.name for c in calls]))
+            else:
+                # limit (or kind-independent) placement: nothing special happens with trading off - the order goes on to rest
+                ctx.check(not ws and not calls, "reject", "slice|%s|bb" % (kind or "any"), where,
+                          "trading off: limit placement only skips matching (no write, no call on the `false` branch)",
+                          "trading off: %s placement additionally writes %s / calls %s" % (kind or "order", fields, [c.name for c in calls]))
+    ctx.check(n_off >= 1 and sides_covered == {"Bid", "Ask"}, "reject", "market-placers", ctx.loc(place),
+              "place_order: market orders of both sides branch on the trading flag (%d `trading == false` branch(es) on market paths)" % n_off,
+              "found %d `trading == false` branches on market-order paths covering sides %s" % (n_off, sorted(sides_covered)))
     # limit placement / replacement with trading off: typestate shows the order still ends queued
     ts, roots, _ld = run_typestate(ctx, m)
     for v in ts.violations.values():
         if v.rule in ("insert", "remove", "exit-invariant", "state-machine", "typestate-anchor"):
             ctx.bad("ts-" + v.rule, v.key, v.where, v.what)
     # insertion sites are NOT control-dependent on the flag (limit orders rest either way)
-    for f in m.w.reachable([place, m.book_fn("modify_order")]):
-        if f.crate.name != "bourse_book":
-            continue
-        q = m.q(f)
+    for f in (place, m.book_fn("modify_order")):
+        q = m.ov(f)
         for (c, side) in m.side_op_calls(q, "insert_order"):
             ctx.check(not trading_true(m, c.guards) and not trading_false(m, c.guards), "rest", "%s|%s" % (f.short(), side), c.loc(),
                       "the %s-side insertion does not depend on the trading flag (orders rest with trading on or off)" % side,
